@@ -112,7 +112,7 @@ def apply_variant(ep, s, o, variant, rng):
     s2, o2 = dict(s), dict(o)
     names = [n for n in ep.arrays if s.get(n) is not None]
     if variant in LAYOUT:
-        for n in names + [m for m in ('mask', 'segm', 'pmask') if m in s]:
+        for n in names + [m for m in ('mask', 'segm', 'pmask', 'gmask') if m in s]:
             if variant == 'bigendian' and s[n].dtype.kind == 'b':
                 continue
             s2[n] = gen.represent(s[n], variant)
@@ -410,8 +410,10 @@ def run_case(case):
     variant = case.cls
     precision = variant in PRECISION
     r = rng.random()
-    flav = 'stars' if r < (0.5 if variant == 'nddata' else 0.25) else ('pedestal' if r < 0.45 and variant not in ('nddata', 'mixed_units') else 'general')
-    scene = gen.make_scene(rng, flavour='general' if flav == 'pedestal' else flav, margin=8, integer=precision,
+    flav = 'stars' if r < (0.5 if variant == 'nddata' else 0.25) else (
+        'pedestal' if r < 0.45 and variant not in ('nddata', 'mixed_units') else
+        'galaxy' if r < 0.58 and variant not in ('nddata', 'mixed_units', 'quantity') else 'general')
+    scene = gen.make_scene(rng, flavour='general' if flav in ('pedestal', 'galaxy') else flav, margin=8, integer=precision,
                            nonneg=(variant == 'uint16'))
     amp = scene['amp']
     if flav == 'pedestal':
@@ -419,6 +421,12 @@ def run_case(case):
         img, pm, ped, sig = gen.make_pedestal_image(rng)
         scene['pdata'], scene['pmask'] = gen.Frame(img), gen.Frame(pm, False)
         scene['ped'], scene['psig'] = ped, sig
+        amp = 1.0
+    if flav == 'galaxy':
+        # isophote layer: bright integer-valued galaxy, sector sums beyond the 16-bit ranges
+        img, geom = gen.make_galaxy_image(rng)
+        gm = rng.random(img.shape) < 0.01
+        scene['gdata'], scene['gmask'], scene['ggeom'] = gen.Frame(img), gen.Frame(gm, False), geom
         amp = 1.0
     if variant == 'mixed_units':
         elig = [e for e in EPS if e.name in MIX and e.quantity]
@@ -463,6 +471,8 @@ def run_case(case):
                     o1['clip'] = None
         if ep.name == 'statistics':
             o1['est_mask'] = variant in LAYOUT + ['maskedarray', 'float32']
+        if ep.name == 'isophote':
+            o1['mask_ok'] = True      # a MaskedArray is how Ellipse takes masked pixels, for every dtype
         if variant == 'mixed_units':
             o1 = force_options(ep, o1, rng, scene['mask'].v.shape)
             mech = {'entry': ep.name, 'relation': 'repr:mixed_units'}
